@@ -261,11 +261,7 @@ def in_domain(case):
         if case["dtype"] != "float64":
             case["pow2"] = 0
         return case
-    if case["svd"] == "randomized_svd" and case["dtype"].startswith("int"):
-        case["dtype"] = "float64"
     if case["dtype"] != "float64":
-        case["pow2"] = 0
-    if case["svd"] == "symeig_svd":
         case["pow2"] = 0
     return case
 
